@@ -1202,6 +1202,12 @@ namespace
                 fb(resolve(env, l.pos.at(2)));
                 continue;
             }
+            if (l.pos[0] == "rankdep")
+            {
+                // rankdep <node> <after>: an explicit rank dependency - <node> is evaluated after <after> in every cycle
+                w.add_rank_dependency(resolve(env, l.pos.at(1)).node(), resolve(env, l.pos.at(2)).node());
+                continue;
+            }
             if (l.pos[0] != "n") { throw std::logic_error("hgv: bad statement " + text); }
             const long        id   = std::stol(l.pos.at(1));
             const std::string kind = l.pos.at(2);
@@ -1775,7 +1781,7 @@ namespace
                 scn->nodes[sp.id] = sp;
                 cur->stmts.push_back(text);
             }
-            else if (cmd == "bind") { cur->stmts.push_back(text); }
+            else if (cmd == "bind" || cmd == "rankdep") { cur->stmts.push_back(text); }
             else { return false; }
             return true;
         }
